@@ -56,6 +56,21 @@ func c19Forms() []commentForm {
 			}
 			return b.String()
 		}, id},
+		// one comment group mixing the directive style (//goverter:) and the spaced style line by line, both ways
+		{"line-mixed-directive-first", func(lines []string, indent string) string {
+			var b strings.Builder
+			for i, l := range lines {
+				b.WriteString(indent + []string{"//", "// "}[i%2] + l + "\n")
+			}
+			return b.String()
+		}, id},
+		{"line-mixed-spaced-first", func(lines []string, indent string) string {
+			var b strings.Builder
+			for i, l := range lines {
+				b.WriteString(indent + []string{"// ", "//", "//\t"}[i%3] + l + "\n")
+			}
+			return b.String()
+		}, id},
 		{"line-trailing-ws", func(lines []string, indent string) string {
 			var b strings.Builder
 			for _, l := range lines {
